@@ -129,6 +129,7 @@ func vBlockUntil(p *bool) {
 	}
 }
 func vPreemptions() int { return 0 }
+func vYieldAll()        { time.Sleep(200 * time.Microsecond) }
 func vStop(why string)  { panic(vViolation{"stop:" + why}) }
 
 var vBaseGoroutines int
